@@ -298,6 +298,13 @@ def run(prog, rep, tier):
             if t is not None and t != f:
                 guards.append((sbb, t))
         bad = [(eb, ei, w) for (eb, ei, w, r) in effs if not any(body.edge_dominates(g, eb) for g in guards)]
+        # ... and no success without it: a call made in the wrong state is an error whatever its other arguments (e.g. a zero size)
+        oks = [(b.idx, i) for b in body.blocks if not b.cleanup for i, st in enumerate(b.stmts)
+               if st.kind == 'assign' and st.place == (0, ()) and st.rv.r == 'aggregate' and st.rv.j.get('variant') == 'Ok']
+        bad_ok = [(bb, i) for bb, i in oks if not any(body.edge_dominates(g, bb) for g in guards)]
+        rep.ob('R09.2', bool(guards) and not bad_ok, 'R09.2|%s|state-test-dominates-success' % body.nkey,
+               '%d Ok result(s) all behind the OpenedFiles edge of a state test' % len(oks) if (guards and not bad_ok) else
+               '%s can return Ok without having tested the archive state (%s): a call that must be refused is reported as success' % (body.name, ', '.join(body.loc(bb, i) for bb, i in bad_ok[:3])), body.loc())
         rep.ob('R09.2', bool(guards) and not bad, 'R09.2|%s|state-test-dominates-effects' % body.nkey,
                '%d effect site(s) all behind the OpenedFiles edge of a state test' % len(effs) if (guards and not bad) else
                'effects not guarded by the archive-state test: %s' % '; '.join('%s at %s' % (w, body.loc(eb, ei)) for eb, ei, w in bad[:4]), body.loc())
@@ -312,6 +319,12 @@ def run(prog, rep, tier):
             if r and r[1].cmethod in ('contains', 'contains_key'):
                 tests.append((bl.idx, r[2]))
         bad = [(eb, ei, w) for (eb, ei, w, r) in effs if sum(1 for g in tests if body.edge_dominates(g, eb)) < 2]
+        oks = [(b.idx, i) for b in body.blocks if not b.cleanup for i, st in enumerate(b.stmts)
+               if st.kind == 'assign' and st.place == (0, ()) and st.rv.r == 'aggregate' and st.rv.j.get('variant') == 'Ok']
+        bad_ok = [(bb, i) for bb, i in oks if sum(1 for g in tests if body.edge_dominates(g, bb)) < 2]
+        rep.ob('R09.2', len(tests) >= 2 and not bad_ok, 'R09.2|%s|id-membership-dominates-success' % body.nkey,
+               'every Ok result behind ids.contains(id) && hashes.contains_key(id)' if (len(tests) >= 2 and not bad_ok) else
+               '%s can return Ok for an id that is not an open file (%s)' % (body.name, ', '.join(body.loc(bb, i) for bb, i in bad_ok[:3])), body.loc())
         rep.ob('R09.2', len(tests) >= 2 and not bad, 'R09.2|%s|id-membership-dominates-effects' % body.nkey,
                'effects behind ids.contains(id) && hashes.contains_key(id)' if (len(tests) >= 2 and not bad) else 'effects not guarded by the open-file membership tests', body.loc())
 
